@@ -111,6 +111,13 @@ def sequences(quick=True):
         sc = _sc(("cert", 0), "cert-not-pem", pair, kp, cat, attempts=3, family="sequence")
         sc["more"] = [{"pos": ["cert", 1], "fault": "cert-not-pem#2", "answer": cat["cert-not-pem"][0], "times": 1}]
         out.append(sc)
+    # a REPEATED order (kp_reuse: same key, same names) answered with the end-entity certificate already issued for it
+    # (mock CA option `same_leaf`; good for a day, so due at once) under other and fewer upper certificates: the second
+    # download is cut short (the installed pair stays), the third succeeds / two such renewals succeed, the third fails
+    for pos, label, pair in ((("cert", 1), "cert-truncated", False), (("cert", 2), "cert-not-pem", True)):
+        sc = _sc(pos, label, pair, True, cat, attempts=3, family="sequence")
+        sc["ca_opts"] = {"same_leaf": "leaf", "valid_secs": 86400, "chain_len": [3, 2, 1]}
+        out.append(sc)
     # a certificate for another key in the first attempt only: the rule answers the first download
     other = {"status": 200, "ctype": "application/pem-certificate-chain", "body_from": "other-key"}
     for pair, kp in CLASSES:
